@@ -310,6 +310,18 @@ def run_sim(spec):
     sspec = dict(spec)
     sspec['scope'] = resolve_scope(spec.get('scope', ['repo']))
     sspec['fault_scope'] = resolve_scope(['repo'])
+    # aged process: what this process served before the clients start (single-threaded, no event delivery); judged like any
+    # other history
+    pre_mism = []
+    exp0 = spec.get('expected') or {}
+    for j, op in enumerate(spec.get('pre') or []):
+        try:
+            obs = O.run_op(op, envs[j % nclients])
+        except BaseException as e:  # noqa
+            obs = 'base-' + O.exc_obs(e)
+        e0 = exp0.get(O.op_key(op))
+        if e0 is not None and e0 != dg(obs):
+            pre_mism.append({'client': -2, 'op_i': j, 'op': op, 'expected': e0, 'observed': obs, 'inv': 'I1', 'class': 'history (aged process)'})
     sim = Sim(sspec, clients, watchdog_s=spec.get('watchdog_s', 120.0))
     ok = sim.run()
     if not ok:
@@ -375,7 +387,7 @@ def run_sim(spec):
     import zlib
     sig = hashlib.sha256(repr(sim.switch_sites).encode() + repr([(c.cid, c.fired) for c in clients]).encode()).hexdigest()[:16]
     return {
-        'results': results, 'mismatches': mism + probe_mism, 'steps': sim.step, 'digest': '%012x' % sim.digest,
+        'results': results, 'mismatches': pre_mism + mism + probe_mism, 'pre_ops': len(spec.get('pre') or []), 'steps': sim.step, 'digest': '%012x' % sim.digest,
         'nswitch': len(sim.switches), 'switches': sim.switches if spec.get('record', True) else None,
         'finishes': sim.finishes, 'first': sim.first,
         'fired': [[c.cid] + f for c in clients for f in c.fired], 'gc_fired': len(sim.gc_fired), 'gcs_at': sim.gc_fired,
